@@ -115,3 +115,53 @@ def install_all():
 
 def deep(o):
     return copy.deepcopy(o)
+
+
+# ---- Guardrails: an unmasked configuration is only reported when its checksum matches -----------------------
+def _own_guard_checksum(masked_beacon, masked_guard):
+    """stored checksum from an own decoding of the guard block, or None"""
+    import struct
+
+    rev = masked_beacon[::-1]
+    g = bytes(a ^ b ^ 0x8A for a, b in zip(masked_guard, rev))
+    pos = 0
+    while pos + 6 <= len(g):
+        if g[pos : pos + 2] == b"\0\0":
+            break
+        opt, typ, ln = struct.unpack_from(">HHH", g, pos)
+        if pos + 6 + ln > len(g):
+            break
+        if opt == 9 and ln >= 4:
+            return struct.unpack_from(">I", g, pos + 6)[0]
+        pos += 6 + ln
+    return None
+
+
+def _own_payload_checksum(data):
+    n = 0
+    for i, b in enumerate(data):
+        n = (n + b * (i % 3 + 1)) % 99999999
+    return n
+
+
+def install_guardrails():
+    if "guardrails" in _installed:
+        return
+    from dissect.cobaltstrike import beacon, guardrails
+
+    real = guardrails.iter_guardrail_configs_with_beacon
+
+    def monitored(fh):
+        for gr in real(fh):
+            evaluations["guardrails.checksum_gate"] += 1
+            if gr.unmasked_beacon_config is not None:
+                evaluations["guardrails.checksum_gate.unmasked"] += 1
+                stored = _own_guard_checksum(gr.masked_beacon_config, gr.masked_guard_config)
+                own = _own_payload_checksum(gr.unmasked_beacon_config) + 1
+                if stored is None or own != stored:
+                    _breach("guardrails.checksum_gate", f"unmasked configuration reported although its checksum+1 = {own} and the guard configuration stores {stored}")
+            yield gr
+
+    guardrails.iter_guardrail_configs_with_beacon = monitored
+    beacon.iter_guardrail_configs_with_beacon = monitored
+    _installed.add("guardrails")
